@@ -21,8 +21,8 @@ requests (bytes are arrays of 0..255, text arrays of code points):
   {"op":"name","fn":string,"name":[b…]}                  → {"r":[b…]} | {"err":e}        128s dictionary entry of that writer
   {"op":"prop","version":[cp…],"vals":[v…]}              → {"r":[b…],"size":n} | {"err":e}  one static-prop record (writer segments)
   {"op":"prop_read","version":[cp…],"d":[b…]}            → {"vals":[v…]} | {"err":e}       (reader segments)
-  {"op":"ent_write","ents":[[[key cps],[value cps],raw]…]…]} → {"r":[cp…]}                   entity lump text
-  {"op":"ent_read","s":[cp…]}                            → {"ents":[[[key],[value],kind]…]…]} | {"err":…}
+  {"op":"ent_write","ents":[[line…]…]}                   → {"r":[cp…]}    line = [key, value] | [name, target, input, params, delay, times, comma]
+  {"op":"ent_read","s":[cp…]}                            → {"ents":[[[key],[value],kind, null|[target,input,params,delay,times,comma]]…]…]} | {"err":…}
   {"op":"gen"}                                           → facts extracted from the source
 -/
 open Lean StructCodec C11
@@ -247,18 +247,29 @@ def handle (j : Json) : Except String Json := do
       let ls ← e.getArr?
       ls.toList.mapM fun l => do
         let a ← l.getArr?
-        if a.size != 3 then throw "line: need [key, value, raw]"
-        let k ← Wire.strOfCodes a[0]!
-        let v ← Wire.strOfCodes a[1]!
-        let r ← (a[2]!).getBool?
-        pure ({ key := k, value := v, raw := r } : C11Ent.Line)
+        if a.size == 2 then
+          pure (C11Ent.Line.kv (← Wire.strOfCodes a[0]!) (← Wire.strOfCodes a[1]!))
+        else if a.size == 7 then
+          let f0 ← Wire.strOfCodes a[0]!
+          let f1 ← Wire.strOfCodes a[1]!
+          let f2 ← Wire.strOfCodes a[2]!
+          let f3 ← Wire.strOfCodes a[3]!
+          let f4 ← Wire.strOfCodes a[4]!
+          let f5 ← Wire.strOfCodes a[5]!
+          let c ← (a[6]!).getBool?
+          pure (C11Ent.Line.out { name := f0, target := f1, input := f2, params := f3, delay := f4, times := f5, commaSep := c })
+        else throw "line: need [key, value] or [name, target, input, params, delay, times, comma]"
     pure (Json.mkObj [("r", Wire.codesOfStr (C11Ent.entWrite Gen.Tok.tables ents))])
   | "ent_read" =>
     let s ← Wire.strOfCodes (← j.getObjVal? "s")
     match C11Ent.entRead Gen.Tok.tables (fun c => [c]) s with
     | .ok ents =>
       pure (Json.mkObj [("ents", Json.arr (ents.map (fun e => Json.arr (e.map (fun l =>
-        Json.arr #[Wire.codesOfStr l.key, Wire.codesOfStr l.value, Json.num (JsonNumber.fromNat l.kind)])).toArray)).toArray)])
+        Json.arr #[Wire.codesOfStr l.key, Wire.codesOfStr l.value, Json.num (JsonNumber.fromNat l.kind),
+          (if l.kind = 0 then Json.null else match C11Ent.parseOut l.value with
+            | some (t, i, p, d, n, c) => Json.arr #[Wire.codesOfStr t, Wire.codesOfStr i, Wire.codesOfStr p,
+                Wire.codesOfStr d, Wire.codesOfStr n, Json.bool c]
+            | none => Json.null)])).toArray)).toArray)])
     | .error e => pure (errJson (reprStr e))
   | "gen" =>
     pure (Json.mkObj [
